@@ -551,7 +551,7 @@ func legC08Offsets(c *Ctx) {
 		doString(f + f)
 	}
 	doString("")
-	n := c.N(5000, 100000)
+	n := c.N(15000, 150000)
 	for i := 0; i < n; i++ {
 		doString(c08RandString(c.Rng, 7))
 	}
@@ -561,7 +561,7 @@ func legC08Offsets(c *Ctx) {
 	weird := []rune{-0x80000000, -1, 0xD800, 0xDFFF, 0x110000, 0x7FFFFFFF, 0xFFFD, 'a', 'é', '€', 0x1F600, 0x7F, 0x80, 0x7FF, 0x800, 0xFFFF, 0x10000}
 	empty := cc.get(``)
 	nWeird, nAll := 0, 0
-	for i := 0; i < c.N(4000, 100000); i++ {
+	for i := 0; i < c.N(12000, 150000); i++ {
 		k := c.Rng.Intn(7)
 		rs := make([]rune, k)
 		matchable := true
@@ -1213,7 +1213,7 @@ func legC08Wellformed(c *Ctx) {
 		}
 	}
 	// random patterns
-	n := c.N(12000, 300000)
+	n := c.N(40000, 400000)
 	for i := 0; i < n; i++ {
 		g := &c08Gen{r: c.Rng, used: used}
 		pat := g.alt(2)
